@@ -274,6 +274,12 @@ class GaussianBackend(BaseGaussian):
 
         if modes is None:
             modes = self.get_modes()
+        else:
+            if isinstance(modes, int):
+                modes = [modes]
+            # deleted or unknown modes have no state
+            if not set(modes) <= set(self.get_modes()):
+                raise ValueError("The specified modes are not valid.")
 
         listmodes = list(concatenate((2 * array(modes), 2 * array(modes) + 1)))
         covmat = empty((2 * len(modes), 2 * len(modes)))
